@@ -78,6 +78,14 @@ def uf_value(eng, st, base, argzs, argsorts, resT):
     if isinstance(resT, Map):
         has = _uf(base + ".has", *argsorts, z3.ArraySort(resT.k.z3sort(), z3.BoolSort()))(*argzs)
         val = _uf(base + ".val", *argsorts, z3.ArraySort(resT.k.z3sort(), resT.v.z3sort()))(*argzs)
+        if getattr(resT, "ordered", False):
+            karr = _uf(base + ".keys.arr", *argsorts, z3.ArraySort(z3.IntSort(), resT.k.z3sort()))(*argzs)
+            kn = _uf(base + ".keys.len", *argsorts, z3.IntSort())(*argzs)
+            idx = _uf(base + ".idx", *argsorts, z3.ArraySort(resT.k.z3sort(), z3.IntSort()))(*argzs)
+            m = SMap(resT.k, resT.v, has, val, SSeq(resT.k, karr, kn), idx)
+            st.assume(kn >= 0)
+            assume_keys_inv(st, m)
+            return m
         return SMap(resT.k, resT.v, has, val)
     if isinstance(resT, Tup):
         return tuple(uf_value(eng, st, f"{base}.{i}", argzs, argsorts, t) for i, t in enumerate(resT.ts))
@@ -892,6 +900,45 @@ def construct(eng, st, cls, args, kwargs, node):
         yield from eng.class_models[cls](eng, st, args, kwargs)
         return
     mod = getattr(cls, "__module__", "")
+    import dataclasses as _dc
+    if mod.startswith("unified_planning") and _dc.is_dataclass(cls):
+        try:
+            inspect.getsource(cls.__init__)
+            generated = False
+        except (OSError, TypeError):
+            generated = True
+        if generated:
+            # dataclass-generated __init__: fields in declaration order, defaults / default factories, then __post_init__
+            flds = [f for f in _dc.fields(cls) if f.init]
+            vals, args = {}, list(args)
+            kwargs = dict(kwargs)
+            if len(args) > len(flds):
+                yield st, ExcVal(TypeError, (), eng.where(st, node) if node else "")
+                return
+            for i, f in enumerate(flds):
+                if i < len(args):
+                    vals[f.name] = args[i]
+                elif f.name in kwargs:
+                    vals[f.name] = kwargs.pop(f.name)
+                elif f.default is not _dc.MISSING:
+                    vals[f.name] = f.default
+                elif f.default_factory is not _dc.MISSING:
+                    d = f.default_factory()
+                    vals[f.name] = st.alloc(CList([]), "list") if d == [] else (st.alloc(CDict({}), "dict") if d == {} else d)
+                else:
+                    yield st, ExcVal(TypeError, (), eng.where(st, node) if node else "")
+                    return
+            if kwargs:
+                yield st, ExcVal(TypeError, (), eng.where(st, node) if node else "")
+                return
+            loc = st.alloc(Rec(cls, vals), cls.__name__)
+            post = inspect.getattr_static(cls, "__post_init__", None)
+            if isinstance(post, types.FunctionType):
+                for s, r in eng.call(st, post, [loc], {}, node):
+                    yield s, (r if isinstance(r, ExcVal) else loc)
+            else:
+                yield st, loc
+            return
     if mod.startswith("unified_planning"):
         init = inspect.getattr_static(cls, "__init__", None)
         loc = st.alloc(Rec(cls, {}), cls.__name__)
@@ -1565,6 +1612,13 @@ def _enumerate(eng, st, args, kw, node):
             yield s, EnumSeq(items, start)
 
 
+class ZipDict:
+    """dict(zip(keys, values)) with symbolic-length sequences: an opaque mapping value for callee contracts that take it whole"""
+
+    def __init__(self, keys, values):
+        self.keys, self.values = keys, values
+
+
 class ItemsSeq:
     """d.items() / d.values() of an insertion-ordered symbolic map: element i is (keys[i], d[keys[i]])"""
 
@@ -1691,6 +1745,9 @@ def _dict(eng, st, args, kw, node):
     src = eng.deref(st, args[0])
     if isinstance(src, (SMap, CDict)):
         yield st, st.alloc(src, "dict")
+        return
+    if isinstance(src, ZipSeq) and len(src.parts) == 2:
+        yield st, ZipDict(src.parts[0], src.parts[1])     # dict(zip(keys, values)) over symbolic sequences: kept as the two sequences
         return
     raise Unsupported("dict(iterable)")
 
@@ -2394,7 +2451,19 @@ def _map(eng, st, args, kw, node):
         raise Unsupported("map with several iterables")
     for s, items in iterate(eng, st, args[1]):
         if not isinstance(items, list):
-            raise Unsupported("map over symbolic-length sequence")
+            # symbolic length: explored for lengths 0..UNROLL with symbolic elements, labelled bounded
+            seq, k = items, eng.UNROLL
+            if eng.feasible(s, seq.n > k):
+                eng.bounded_used = True
+            for n in range(k + 1):
+                if not eng.feasible(s, seq.n == n):
+                    continue
+                s_n = s.fork()
+                s_n.assume(seq.n == n)
+                s_n.tags = s_n.tags + (f"bounded(len<={k})",)
+                s_n.note(f"maplen={n}")
+                yield from _map(eng, s_n, [f, tuple(seq.at(j) for j in range(n))], kw, node)
+            return
 
         def go(i, s0, acc):
             if i == len(items):
